@@ -512,6 +512,63 @@ let cmd_cfgvalid (arg : string) : string =
      | VOk true -> "VALID" | VOk false -> "INVALID" | VPanic -> "PANIC")
   | _ -> failwith "cfgvalid args"
 
+(* ---------- the configuration loaders at the level of the text (Model/LoadModel.v) ---------- *)
+let render_lcfg (r : (cfg_error, lcfg) outcome) : string =
+  match r with
+  | Ok c ->
+    let kms = match c.lc_kms with
+      | KPlaintext -> "P" | KAws s -> "A:" ^ hex_of_bytes s | KGcp s -> "G:" ^ hex_of_bytes s in
+    Printf.sprintf "OK port=%s iface=%s seed=%s batch=%s status=%s kms=%s health=%s cs=%d fault=%s workers=%s pdir=%s"
+      (string_of_z c.lc_port) (hex_of_bytes c.lc_interface) (hex_of_bytes c.lc_seed) (string_of_z c.lc_batch)
+      (string_of_z c.lc_status) kms (match c.lc_health with Some h -> string_of_z h | None -> "-1")
+      (if c.lc_cstats then 1 else 0) (string_of_z c.lc_fault) (string_of_z c.lc_workers)
+      (match c.lc_pdir with Some p -> hex_of_bytes p | None -> "none")
+  | Err InvalidConfiguration -> "ERR InvalidConfiguration"
+  | Err NoneValue -> "ERR NoneValue"
+  | Panic _ -> "PANIC"
+
+let yval_of_string (s : string) : yval =
+  if s = "" then YOther else
+  match s.[0] with
+  | 'i' -> YInt (z_of_string (String.sub s 1 (String.length s - 1)))
+  | 's' -> YStr (bytes_of_hex (String.sub s 1 (String.length s - 1)))
+  | _ -> YOther
+
+(* fileload <cores> P | fileload <cores> <ndocs> <doc>...   doc = X | H:<k>=<v>,<k>=<v>... *)
+let cmd_fileload (arg : string) : string =
+  match String.split_on_char ' ' (String.trim arg) with
+  | cores :: "P" :: _ -> render_lcfg (file_load (z_of_string cores) (Panic O))
+  | cores :: _ :: docs ->
+    let doc d =
+      if d = "X" then DOther
+      else begin
+        let body = String.sub d 2 (String.length d - 2) in
+        let es = if body = "" then [] else split_on ',' body in
+        DHash (List.map (fun e -> let i = String.index e '=' in
+                          (yval_of_string (String.sub e 0 i),
+                           yval_of_string (String.sub e (i + 1) (String.length e - i - 1)))) es)
+      end in
+    render_lcfg (file_load (z_of_string cores) (Ok (List.map doc (List.filter (fun d -> d <> "") docs))))
+  | _ -> failwith "fileload args"
+
+(* envload <cores> <NAMEhex>=<VALUEhex>,...   ('-' for an empty environment) *)
+let cmd_envload (arg : string) : string =
+  match String.split_on_char ' ' (String.trim arg) with
+  | [cores; vars] ->
+    let tbl = if vars = "-" then [] else
+        List.map (fun e -> let i = String.index e '=' in
+                   (bytes_of_hex (String.sub e 0 i), bytes_of_hex (String.sub e (i + 1) (String.length e - i - 1))))
+          (split_on ',' vars) in
+    let env (n : bytes) = try Some (List.assoc n tbl) with Not_found -> None in
+    render_lcfg (env_load (z_of_string cores) env)
+  | _ -> failwith "envload args"
+
+(* parseuint <max> <texthex> *)
+let cmd_parseuint (arg : string) : string =
+  match String.split_on_char ' ' (String.trim arg) with
+  | [mx; t] -> (match parse_uint (z_of_string mx) (bytes_of_hex t) with Some z -> "OK " ^ string_of_z z | None -> "ERR")
+  | _ -> failwith "parseuint args"
+
 (* ---------- client ---------- *)
 let parse_assoc (s : string) : (string * bool) list =
   if s = "-" then [] else
@@ -702,6 +759,9 @@ let dispatch (line : string) : string =
   | "clientrun" -> cmd_clientrun rest
   | "mkreq" -> cmd_mkreq rest
   | "cfg" -> cmd_cfg rest
+  | "fileload" -> cmd_fileload rest
+  | "envload" -> cmd_envload rest
+  | "parseuint" -> cmd_parseuint rest
   | "ltk" -> cmd_ltk rest
   | "cert" -> cmd_cert rest
   | "stats" -> cmd_stats rest
